@@ -112,12 +112,18 @@ impl<'b> Bytes<'b> {
 
     #[inline]
     pub fn as_string(&self, encoding: &'static Encoding) -> String {
-        encoding.decode(self.0).0.into_owned()
+        // NOTE: no BOM sniffing here: these are fragments of a document (names, attribute
+        // values, comment text), so a leading U+FEFF is content, and `FF FE`/`FE FF` must
+        // not switch the fragment to UTF-16.
+        encoding.decode_without_bom_handling(self.0).0.into_owned()
     }
 
     #[inline]
     pub fn as_lowercase_string(&self, encoding: &'static Encoding) -> String {
-        encoding.decode(self.0).0.to_ascii_lowercase()
+        encoding
+            .decode_without_bom_handling(self.0)
+            .0
+            .to_ascii_lowercase()
     }
 
     #[inline]
